@@ -31,7 +31,8 @@ from .. import core, scen, wire
 from ..scen import hb
 
 LEVEL = 'exploration'
-RULE = ('order-scrambled programs (10-60 calls) of send_headers (request / informational / final / trailer / mixed header lists, with and '
+RULE = ('(a quarter of the cases with outbound header validation and or normalisation switched off: the order of message parts is promised regardless; 1xx statuses 100-199) '
+        'order-scrambled programs (10-60 calls) of send_headers (request / informational / final / trailer / mixed header lists, with and '
         'without END_STREAM and priority arguments), send_data, end_stream, push_stream, prioritize, advertise_alternative_service and '
         'reset_stream over new, inbound, pushed (both directions) and upgraded streams, both roles, with the peer half-closing and resetting '
         'streams in between; non-trivial = at least one forbidden call judged; distinct = hash of the call list')
@@ -39,7 +40,7 @@ MINIMA = {'forbidden_call_refused': 100000, 'wire_frames_checked': 100000, 'wire
           'judged:client-push': 1000, 'judged:client-altsvc': 1000, 'judged:server-headers-on-fresh-stream': 1000,
           'judged:server-priority': 1000, 'judged:data-before-final-headers': 1000, 'judged:end-stream-before-final-headers': 500,
           'judged:data-before-final-headers-on-promised-stream': 300,
-          'judged:headers-after-trailers-or-end': 1000, 'judged:informational-after-final': 500,
+          'judged:headers-after-trailers-or-end': 1000, 'judged:informational-after-final': 150, 'judged:second-informational-block': 150,
           'judged:trailers-without-end-stream': 500, 'judged:client-opens-with-non-request': 1000,
           'judged:push-on-pushed-stream': 100, 'judged:second-final-block': 500, 'judged:client-headers-on-promised-stream': 500,
           'permitted_call_succeeded': 80000, 'peer_continuation_frames': 20000}
@@ -48,7 +49,12 @@ EXHAUSTIVE = {}
 REQ = [(b':method', b'GET'), (b':scheme', b'https'), (b':authority', b'example.com'), (b':path', b'/')]
 REQ2 = [(b':method', b'POST'), (b':scheme', b'https'), (b':authority', b'example.com'), (b':path', b'/p'), (b'x-a', b'1')]
 FINALS = [[(b':status', b'200')], [(b':status', b'404'), (b'x-a', b'b')], [(b':status', b'204')]]
-INFOS = [[(b':status', b'100')], [(b':status', b'103'), (b'link', b'</a>')]]
+INFOS = [[(b':status', b'100')], [(b':status', b'103'), (b'link', b'</a>')], [(b':status', b'102')], [(b':status', b'110')],
+         [(b':status', b'150'), (b'x-a', b'b')], [(b':status', b'199')]]
+# refusals that rest on the content of the header list, not on the position of the call: only promised while outbound
+# header validation is on
+CONTENT_RULES = ('client-opens-with-non-request', 'first-block-not-a-response', 'second-final-block', 'second-request-block',
+                 'second-other-block', 'second-informational-block')
 TRAILERS = [[(b'x-trailer', b't')], [(b'x-checksum', b'abc'), (b'x-b', b'2')]]
 
 
@@ -79,8 +85,14 @@ def run_case(idx, rng, tier, rep):
     # wire automaton state per stream, driven only by emitted frames (and delivered resets)
     ws = {}
 
+    cfg = {}
+    if rng.random() < 0.25:
+        # the order of a message's parts does not depend on header validation or normalisation being switched on
+        cfg = {'validate_outbound_headers': rng.random() < 0.3, 'normalize_outbound_headers': rng.random() < 0.5}
+        rep.count('cases_with_outbound_validation_or_normalisation_off')
+    validating = cfg.get('validate_outbound_headers', True)
     if upgraded:
-        h = scen.Hostile(e_client, handshake=False)
+        h = scen.Hostile(e_client, handshake=False, cfg=cfg)
         t = h.t
         if e_client:
             r = t.call('initiate_upgrade_connection')
@@ -98,11 +110,11 @@ def run_case(idx, rng, tier, rep):
             rep.violation('C08:upgrade-raises:' + core.exc_key(r.exc), repr(r.exc))
             return
     else:
-        h = scen.Hostile(e_client)
+        h = scen.Hostile(e_client, cfg=cfg)
         t = h.t
 
     def witness():
-        return {'role': 'client' if e_client else 'server', 'upgraded': upgraded, 'calls': [str(c) for c in calls[-14:]],
+        return {'role': 'client' if e_client else 'server', 'upgraded': upgraded, 'cfg': cfg, 'calls': [str(c) for c in calls[-14:]],
                 'model': {str(k): '%s:%s%s' % (v['kind'], v['phase'], ':poisoned' if v['poisoned'] else '') for k, v in sorted(ms.items())},
                 'wire': {str(k): v['phase'] for k, v in sorted(ws.items())}, 'log_tail': t.tail_log(4)}
 
@@ -419,12 +431,14 @@ def run_case(idx, rng, tier, rep):
             elif kind != 'final':
                 forbidden = 'first-block-not-a-response'
         else:       # body
-            if kind == 'informational':
+            if kind == 'informational' and not e_client:
                 forbidden = 'informational-after-final'
             elif kind != 'trailers':
                 forbidden = 'second-%s-block' % kind
             elif not es:
                 forbidden = 'trailers-without-end-stream'
+        if forbidden in CONTENT_RULES and not validating:
+            return
         r = t.call('send_headers', sid, hl, end_stream=es, **kw)
         ok = judge(r, forbidden, 'send_headers')
         if forbidden is not None or r.exc is not None:
